@@ -967,7 +967,7 @@ func vC10Gen(e *vEnv, r *vRand) []vCase {
 		return vC10GenFromDocs(p)
 	}
 	var cases []vCase
-	ncases := e.scale(600, 3500)
+	ncases := e.scale(600, 3000)
 	perState := e.scale(9, 14)
 	for i := 0; i < ncases; i++ {
 		rr := r.fork()
